@@ -904,7 +904,13 @@ func c26() {
 		r.Sample(map[string]any{"note": "run ended by the watchdog: an operation did not return"})
 		r.Finish(c26Rule, 200)
 	})
+	mp := st.newProbe()
+	selfCheck := "Read(4) [self-check on capacity 3: Write(3), ReadByte, WriteByte, copy, Reset, Write(3), Read(4) of the copy]"
+	mp.capacity.Store(3)
+	mp.note.Store(&selfCheck)
+	mp.idle.Store(false)
 	useClone := cloneable()
+	mp.idle.Store(true)
 	r.Note("buffer_cloning", useClone)
 	full, core := fullAlphabet(), coreAlphabet()
 	lenFull := r.Pick(6, 7)
